@@ -20,6 +20,11 @@ BY_LOC = {tuple(k): v for k, v in CASE["by_loc"]}
 FAULTS = [x for x in CASE["fault"] if x]
 LOG = open(os.path.join(HERE, "events.ndjson"), "a")
 N = [0]
+CFG = CASE.get("cfg", {})
+# continue_after_failed_step: class-wide default, or the per-scenario switch set by the before_scenario hook against the
+# opposite default (same realisation as drive.run_case)
+from behave.model import Scenario as _Scenario
+_Scenario.continue_after_failed_step = bool(CFG.get("cont", False)) != bool(CFG.get("cont_by_hook"))
 
 def rec(**kw):
     LOG.write(json.dumps(kw, sort_keys=True) + "\n"); LOG.flush()
@@ -90,6 +95,8 @@ def hook(nm, ctx, *a):
         el = elid(a[0])
     raised = N[0] in FAULTS
     rec(k="hook", name=nm, el=el, tag=tag, pos=pos, raised=raised)
+    if nm == "before_scenario" and CFG.get("cont_by_hook"):
+        a[0].continue_after_failed_step = bool(CFG.get("cont", False))
     for sk in CASE.get("skips", []):
         if sk[0] == nm and sk[1] == el:
             tgt = sk[2] if len(sk) > 2 else el
@@ -135,9 +142,17 @@ def conv_bad(text):
     raise ValueError("bad argument")
 register_type(Bad=conv_bad)
 
-@step("{org:w} {k:d}")
-def any_step(ctx, org, k):
-    V.realise(ctx, org, k)
+if V.CASE.get("typed"):
+    # one function per step type under the same pattern
+    from behave import given, when, then
+    for _deco in (given, when, then):
+        def _typed_step(ctx, org, k):
+            V.realise(ctx, org, k)
+        _deco("{org:w} {k:d}")(_typed_step)
+else:
+    @step("{org:w} {k:d}")
+    def any_step(ctx, org, k):
+        V.realise(ctx, org, k)
 
 @step("sub {x:w} {sid:d} {pos:d}")
 def sub_step(ctx, x, sid, pos):
@@ -161,7 +176,7 @@ def run_cli(case, timeout=900):
                 fh.write(text)
         by_loc = [[["f%d.feature" % fi, line], el] for (fi, line), el in R.by_loc.items()]
         with open(os.path.join(d, "case.json"), "w") as fh:
-            json.dump({"flat": flat, "by_loc": by_loc, "fault": case.get("fault", [0, 0]), "fault_kind": case.get("fault_kind", "exc"),
+            json.dump({"flat": flat, "by_loc": by_loc, "fault": case.get("fault", [0, 0]), "fault_kind": case.get("fault_kind", "exc"), "typed": bool(prog.get("typed")), "cfg": {"cont": bool(cfg.get("cont")), "cont_by_hook": bool(cfg.get("cont_by_hook"))},
                        "skips": [list(x) for x in (prog.get("skips") or [])]}, fh)
         with open(os.path.join(d, "verif_child.py"), "w") as fh:
             fh.write(CHILD)
